@@ -214,6 +214,8 @@ class Builder:
 
     def observe(self, r, extra=(), closed=False):
         self.add(f"frame {r}", focus=True)
+        self.add(f"consistent {r}", focus=True)
+        self.add(f"stepchanges {r}", focus=True)
         xs = " ".join(fs(x) for x in self.critical(extra))
         self.add(f"limit {r} left {xs}", focus=True)
         self.add(f"limit {r} right {xs}", focus=True)
